@@ -148,6 +148,19 @@ theorem pfe_ratios_step (N : Nat) (hN : 1 ≤ N) (xs : List α) (x : α) :
     pfeRatios N (xs ++ [x]) = pfeRatios N xs ++ (if xs.length + 1 < N then [] else [Pfe.ratioAt N (xs ++ [x]) xs.length]) :=
   Pfe.pfeRatios_snoc N hN xs x
 
+/-- for window lengths below 3 the crate's convention "window of N filter values including the current one" drops the
+feedback terms that would reach outside the window; `trendFlexW` / `reFlexW` are the batch definitions for EVERY N (used by
+`./check C11` as the oracle for N = 1, 2 as well), and coincide with the ones characterised above from N = 3 on -/
+theorem flexCoefW_eq (N : Nat) (hN : 3 ≤ N) : Spec.flexCoefW (α := α) N = Spec.flexCoef N := by
+  simp only [Spec.flexCoefW, show 2 ≤ N by omega, hN, if_true]
+
+theorem trendFlexW_eq (N : Nat) (hN : 3 ≤ N) (xs : List α) : Spec.trendFlexW N xs = Spec.trendFlex N xs := by
+  simp only [Spec.trendFlexW, Spec.trendFlex, flexCoefW_eq N hN]
+
+theorem reFlexW_eq (N : Nat) (hN : 3 ≤ N) (xs : List α) : Spec.reFlexW N xs = Spec.reFlex N xs := by
+  simp only [Spec.reFlexW, Spec.reFlex, flexCoefW_eq N hN]
+
+
 end SF.C11
 
 namespace SF.C11.Real
